@@ -125,7 +125,8 @@ type pointResult struct {
 }
 
 // tape: gomaxprocs, api, trigger, pattern, dwell, initial, registered, other, fallback
-var headAtRead = &core.Check{Name: "c13/head-at-read", Quick: 40, Thorough: 4000, Fn: func(c *core.Ctx) error {
+var headAtRead = &core.Check{Name: "c13/head-at-read", Quick: 40, Thorough: 4000, Hang: caseHang, Fn: func(c *core.Ctx) error {
+	caseStart()
 	gmp := c.OneOf("gomaxprocs", 1, 2, 16)
 	api := c.Weighted("api", 3, 2) // 0 WaitMasterchainSeqno, 1 BestMasterchainClient on a connection without a head
 	// which read of the best connection's head, counted from the start of the call, is the scheduling
@@ -176,14 +177,22 @@ var headAtRead = &core.Check{Name: "c13/head-at-read", Quick: 40, Thorough: 4000
 	if withOther {
 		best.also = p.VerifNewConnection(1)
 	}
-	p.VerifSetBest(best)
+	if err := setBest(p, best, "conn0 (fresh pool)"); err != nil {
+		return err
+	}
 	ctx, stopRun := context.WithCancel(context.Background())
 	defer stopRun()
 	go p.Run(ctx)
 	if initial > 0 {
-		best.SetMasterHead(pool.VerifHead(initial))
+		if err := setHead(best.VerifConn, "the best connection conn0 (fresh pool, Run active)", initial); err != nil {
+			c.Class("pool blocked")
+			return err
+		}
 		if withOther {
-			best.also.SetMasterHead(pool.VerifHead(initial))
+			if err := setHead(best.also, "conn1 (fresh pool, Run active)", initial); err != nil {
+				c.Class("pool blocked")
+				return err
+			}
 		}
 	}
 	probe := startLagProbe()
@@ -209,10 +218,12 @@ var headAtRead = &core.Check{Name: "c13/head-at-read", Quick: 40, Thorough: 4000
 	for i := 0; i < nReg; i++ {
 		call(fmt.Sprintf("waiter %d, registered before the call", i), 0)
 	}
-	for i := 0; p.VerifWaiters() < nReg && i < 20000; i++ { // let them register (the point is not armed yet)
-		time.Sleep(100 * time.Microsecond)
+	registered, err := waitersSeen(p, nReg, nil) // let them register (the point is not armed yet)
+	if err != nil {
+		probe.finish()
+		c.Class("pool blocked")
+		return err
 	}
-	registered := p.VerifWaiters()
 	best.arm(trigger)
 	call("the call", api)
 	// fallback publisher: if no read of the pool has fired the point by then, the test publishes the head
@@ -221,15 +232,10 @@ var headAtRead = &core.Check{Name: "c13/head-at-read", Quick: 40, Thorough: 4000
 		best.publish()
 	}
 
-	done := make(chan struct{})
-	go func() { wg.Wait(); close(done) }()
-	select {
-	case <-done:
-	case <-time.After(pointTimeout + 20*time.Second):
+	if h := awaitGroup(&wg, pointTimeout+20*time.Second); h != nil {
 		probe.finish()
-		_, d := verifiablyStuck(func() int64 { return 0 })
 		c.Class("pool blocked")
-		return fmt.Errorf("%s(target %d, deadline %v) and %d earlier waiters did not all return within %v\ngoroutines inside the pool package:\n%s", apiName, target, pointTimeout, nReg, pointTimeout+20*time.Second, d.text)
+		return fmt.Errorf("the pool is blocked: %s(target %d, deadline %v) and %d earlier waiters not all back %s\ngoroutines inside the pool package:\n%s", apiName, target, pointTimeout, nReg, h, h.dump.text)
 	}
 	lag := probe.finish()
 	close(out)
